@@ -80,3 +80,6 @@ func envInt(name string, def int) int {
 	}
 	return def
 }
+
+func writeFile(p string, b []byte) error { return os.WriteFile(p, b, 0o644) }
+func readFile(p string) ([]byte, error)  { return os.ReadFile(p) }
